@@ -50,6 +50,7 @@ Proof.
   - reflexivity.
   - reflexivity.
   - reflexivity.
+  - reflexivity.
   - discriminate.
   - apply IHexec; assumption.
   - apply app_eq_nil in Hc. destruct Hc as [Ha Hb]. rewrite wl_app.
@@ -110,8 +111,8 @@ Proof.
   - constructor.
   - constructor.
   - destruct (is_shared cls) eqn:E; cbn [fst snd].
-    + destruct m; constructor; assumption.
-    + constructor; assumption.
+    + destruct m; [apply X_rd | apply X_wr | apply X_init]; assumption.
+    + apply X_own; assumption.
   - constructor.
   - constructor.
   - constructor.
@@ -127,3 +128,21 @@ Proof.
     + rewrite <- (app_nil_r (fst (default_trace s))). eapply X_loop_next; [eassumption | constructor].
   - cbn [fst snd]. constructor. assumption.
 Qed.
+
+Lemma wl_unlocked_local : forall prot t h h', wl prot h t = Some h' -> unlocked_local prot h t = true.
+Proof.
+  induction t as [|e t IH]; intros h h' H; cbn [wl unlocked_local] in *; [reflexivity|].
+  destruct e.
+  - destruct h; [discriminate | eapply IH; eauto].
+  - destruct h; [eapply IH; eauto | discriminate].
+  - destruct (prot f) eqn:P, h; cbn in *; try discriminate; eapply IH; eauto.
+  - destruct (prot f) eqn:P, h; cbn in *; try discriminate; eapply IH; eauto.
+  - eapply IH; eauto.
+Qed.
+
+(* outside its critical sections an entry point only performs thread-local steps (owned objects such as the caller's CodeHolder,
+   Span and the bytes of its own span; opaque callees) and reads of members that no entry point ever writes *)
+Theorem entry_point_unlocked_part_local : forall eps name s t fl,
+  check_program eps = [] -> In (name, s) eps -> exec s t fl ->
+  unlocked_local (prot_of (written eps)) false t = true.
+Proof. intros. eapply wl_unlocked_local. eapply entry_point_well_locked; eauto. Qed.
